@@ -1,4 +1,5 @@
 import PyrollModel.Gen.C17
+import PyrollModel.Gen.C17Geo
 import PyrollModel.EvalDriver
 /-- one evaluable entry `<name>#<k>` per FORMULA alternative `k` (index in `Impl.alts`) of every translated
     implementation, so that the harness can run each guarded branch against the python function it came from -/
@@ -9,5 +10,32 @@ def altTable : List (String × Expr) :=
       | .expr e => some (n ++ "#" ++ toString k, e)
       | _ => none
 
+def fullTable : List (String × Expr) := Gen.C17.table ++ altTable ++ Gen.C17Geo.table
+
+/-- `@rect width=<bits> height=<bits>`: the polygon `shapes.rectangle(width, height)` as the model sees it - corner
+    coordinates, `bounds`, the translated `width` / `height` properties evaluated on these bounds, shoelace area -/
+def rectLine (rest : List String) : String :=
+  match rest.mapM EvalDriver.parseBinding with
+  | none => "bad-op"
+  | some env =>
+    let ρ := envOf (0.0 / 0.0 : Float) env
+    let pts := C17Geom.evalCorners ρ Gen.C17Geo.rectangle_corners
+    let b := C17Geom.bounds pts
+    let be := C17Geom.boundsEnv pts
+    let nums := pts.flatMap (fun p => [p.1, p.2]) ++ [b.1, b.2.1, b.2.2.1, b.2.2.2,
+      Gen.C17Geo.shape_width_e.eval be, Gen.C17Geo.shape_height_e.eval be, C17Geom.shoelaceArea pts]
+    " ".intercalate (nums.map floatToBitsStr)
+
+def handleLine (line : String) : String :=
+  match Proto.toks line with
+  | "@rect" :: rest => rectLine rest
+  | _ => EvalDriver.handle fullTable line
+
+partial def loop (h : IO.FS.Stream) : IO Unit := do
+  let line ← h.getLine
+  if line.isEmpty then return ()
+  IO.println (handleLine (line.trimAscii.toString))
+  loop h
+
 /-- Float evaluation of the formulas generated for C17 (see PyrollModel/EvalDriver.lean for the protocol). -/
-def main : IO Unit := EvalDriver.main (Gen.C17.table ++ altTable)
+def main : IO Unit := do loop (← IO.getStdin)
